@@ -246,7 +246,12 @@ def evalCopier (p : Pending) (obsToks : List String) : String :=
     | ["stop"] => (c, es ++ [.stop])
     | ["arrive", x] => (c, es ++ [.arrive (unhex x)])
     | ["eof"] => (c, es ++ [.eof])
+    | ["arriveq", x] => (c, es ++ [.arriveQ (unhex x)])
+    | ["prepos", n] => ({ c with prePos := toNat n }, es)
     | _ => (c, es)) (({ src := [] } : Copier.Cfg), [])
+  -- `prepos:n`: the harness opens the random-access source and seeks to `n` before the first event;
+  -- a QBuffer opened for reading refuses a position beyond its size and stays at 0
+  let cfg := { cfg with prePos := if cfg.prePos ≤ cfg.src.length then cfg.prePos else 0 }
   let mlog := (Copier.run cfg evs).log
   let ilog := (obsToks.filter (· != "end")).filterMap parseObs
   let badTok := obsToks.filter (fun t => t != "end" && (parseObs t).isNone)
@@ -258,8 +263,8 @@ def evalCopier (p : Pending) (obsToks : List String) : String :=
   let pm := mergeX mlog
   let pi := mergeX ilog
   let eq := pm == pi
-  let hm := C14.holdsEvery cfg evs mlog
-  let hi := C14.holdsEvery cfg evs ilog
+  let hm := C14.holdsRuns cfg evs mlog
+  let hi := C14.holdsRuns cfg evs ilog
   let b (x : Bool) := if x then "1" else "0"
   let head := s!"RES {p.prop} {p.id} eq={b eq} hm={b hm} hi={b hi} miss={b (!badTok.isEmpty)} crash={b (obsToks.contains "crash")}"
   if eq && hi && hm && badTok.isEmpty then head else head ++ " | " ++ showLog pm ++ " | " ++ showLog pi
